@@ -494,7 +494,11 @@ def evaluate_case(case: dict[str, Any], want: str) -> Outcome:
     _preload()
     scratch = os.environ.get("VF_SCRATCH_DIR") or os.environ.get("VERIF_SCRATCH") or tempfile.gettempdir()
     os.makedirs(scratch, exist_ok=True)
-    kind, val = forked(lambda: _child(case, want, scratch, short_lived=True), CHILD_TIMEOUT)
+    room = tempfile.mkdtemp(prefix="c02c03_eval_", dir=scratch)  # removed here even if the child is killed
+    try:
+        kind, val = forked(lambda: _child(case, want, room, short_lived=True), CHILD_TIMEOUT)
+    finally:
+        shutil.rmtree(room, ignore_errors=True)
     _case_labels(out, case)
     if kind == "signal":
         _crash(out, case, val)
